@@ -179,6 +179,43 @@ def capturedKey (c : Coll) (s : Search) (o : Obj) : Option Val :=
   | (_, .ok l) => (l.index.oidOf o.uuid).bind (fun oid => (s.fields.byOid oid).map (·.1))
   | _ => none
 
+/-- A stale ordered search (some member cannot be read any more): where the first unreadable member
+    is met depends on the order INSIDE a run of equal keys, which is not specified (a refinement
+    re-inserts the previous results in their order, and that order comes from a map when the
+    previous search was a scan).  Returns the smallest and the largest 1-based position at which
+    the first unreadable member can be met, and the captured keys of the members in result order. -/
+def tieWindow (c : Coll) (s : Search) : Option (Nat × Nat × List Val) :=
+  match c.schema with
+  | (c, .ok l) =>
+    let ms := s.fields.map (fun e => (e.1, (l.index.uuidOf e.2).getD 0))
+    let ms := if s.reverse then ms.reverse else ms
+    let rd := ms.map (fun m => match c.get m.2 with
+                               | (_, .ok _) => true
+                               | _ => false)
+    match rd.idxOf? false with
+    | none => none
+    | some i0 =>
+      let k := (ms.getD i0 (Val.i64 0, 0)).1
+      let before := ((ms.take i0).reverse.takeWhile (fun m => m.1 == k)).length
+      let after := ((ms.drop (i0 + 1)).takeWhile (fun m => m.1 == k)).length
+      let gs := i0 - before
+      let ge := i0 + after
+      let u := (((rd.drop gs).take (ge - gs + 1)).filter (· == false)).length
+      some (gs + 1, ge + 1 - (u - 1), ms.map (·.1))
+  | _ => none
+
+/-- is the implementation's outcome of a limited, ordered Collect one that SOME order inside the
+    ties produces?  `n` objects and either success or the error `fe` -/
+def altCollectOk (c : Coll) (s : Search) (fe : Option Err) (readable : List Obj) (io : List Obj) (r : String) : Bool :=
+  match tieWindow c s, fe with
+  | some (pmin, pmax, keys), some e =>
+    let n := io.length
+    io.all (fun o => readable.contains o) && (io.map (·.uuid)).eraseDups.length == n &&
+    io.map (capturedKey c s) == (keys.take n).map some &&
+    ((r == "E:" ++ e.print && pmin ≤ n + 1 && n + 1 ≤ pmax && n ≤ s.limit) ||
+     (r == "ok" && n == s.limit && pmax > s.limit + 1))
+  | _, _ => false
+
 /-- the members of a search that can currently be read -/
 def readableOf (c : Coll) (s : Search) : List Obj :=
   match c.schema with
@@ -378,19 +415,21 @@ def DState.exec1 (d : DState) (op : String) (args : List String) (impl : String)
     let readable := readableOf d.c s
     let (c, s', out, e) := Coll.collect d.c s
     let loose := d.tainted.contains sid || (s.orderPos.isNone && s.err.isNone && fe.isSome)
-    let d' := ({ d with c := c, tainted := if loose then sid :: d.tainted else d.tainted }).setS sid s'
     let txt := printObjs out ++ " " ++ printErrOpt e
-    -- implementation text: "[objs] R"
-    let agree := match impl.splitOn "] " with
+    -- implementation text: "[objs] R"; the verdict, and whether it needed another order inside a tie
+    let (agree, alt) := match impl.splitOn "] " with
       | [objs, r] =>
         match parseObjList (objs ++ "]") with
         | some io =>
           if loose then
-            io.all (fun o => readable.contains o) && (io.map (·.uuid)).eraseDups.length == io.length &&
-              (r == "ok" || some r == fe.map (fun e => "E:" ++ e.print))
-          else r == printErrOpt e && (e.isSome || cmpCollect s.orderPos (capturedKey d.c s) out full io)
-        | none => false
-      | _ => false
+            (io.all (fun o => readable.contains o) && (io.map (·.uuid)).eraseDups.length == io.length &&
+              (r == "ok" || some r == fe.map (fun e => "E:" ++ e.print)), false)
+          else if r == printErrOpt e && (e.isSome || cmpCollect s.orderPos (capturedKey d.c s) out full io) then (true, false)
+          else if s.orderPos.isSome && s.err.isNone && altCollectOk d.c s fe readable io r then (true, true)
+          else (false, false)
+        | none => (false, false)
+      | _ => (false, false)
+    let d' := ({ d with c := c, tainted := if loose || alt then sid :: d.tainted else d.tainted }).setS sid s'
     pure (d', { txt := txt, agree := some agree })
   | "expects", [sid, n] => do
     let sid ← sid.toNat?
@@ -420,6 +459,15 @@ def DState.exec1 (d : DState) (op : String) (args : List String) (impl : String)
     else
     let (c, s', r) := Coll.one d.c s
     let d' := ({ d with c := c }).setS sid s'
+    -- another order inside a tie of a stale search may meet the unreadable member earlier or later
+    let altOk : Bool := s.orderPos.isSome && s.err.isNone && !s.fields.isEmpty &&
+      (match tieWindow d.c s, fe with
+       | some (pmin, pmax, keys), some e =>
+         (match parseObj impl with
+          | some io => readable.contains io && some (capturedKey d.c s io) == keys.head?.map some && pmax > 2
+          | none => impl == "E:" ++ e.print && pmin ≤ 2)
+       | _, _ => false)
+    let dAlt := { d' with tainted := sid :: d'.tainted }
     match r with
     | .ok o =>
       let agree := match parseObj impl with
@@ -427,8 +475,11 @@ def DState.exec1 (d : DState) (op : String) (args : List String) (impl : String)
                                           | some _ => capturedKey d.c s io == capturedKey d.c s o
                                           | none => true)
         | none => false
-      pure (d', { txt := o.print, agree := some agree })
-    | .err e => pure (d', { txt := "E:" ++ e.print })
+      if agree then pure (d', { txt := o.print, agree := some true })
+      else pure (dAlt, { txt := o.print, agree := some altOk })
+    | .err e =>
+      if impl == "E:" ++ e.print then pure (d', { txt := "E:" ++ e.print })
+      else pure (dAlt, { txt := "E:" ++ e.print, agree := some altOk })
     | .panic => pure (d', { txt := "PANIC" })
   | "sdel", [sid] => do
     let s ← (sid.toNat?).bind d.getS
